@@ -140,6 +140,10 @@ def _aggregate(mod, prop, tier, seed, thash, shard_modes, results, proc_events, 
         for k, v in r["events"].items():
             events[k] = events.get(k, 0) + v
         for k, v in r["worst"].items():
+            try:
+                v = [float(v[0]), v[1]]      # non-finite values travel as their repr
+            except (TypeError, ValueError):
+                continue
             if k not in worst or v[0] > worst[k][0] or v[0] != v[0]:
                 worst[k] = v
         for k, v in r["inconcl"].items():
@@ -147,10 +151,20 @@ def _aggregate(mod, prop, tier, seed, thash, shard_modes, results, proc_events, 
         samples.extend(r["samples"][:1])
         for v in r["viol"]:
             v["mode"] = r["mode"]
+            if isinstance(v.get("err"), str):
+                try:
+                    v["err"] = float(v["err"])
+                except ValueError:
+                    v["err"] = None
             viols.append(v)
         for k, st in r["viol_keys"].items():
             cur = viol_keys.setdefault(k, {"n": 0, "max_err": None})
             cur["n"] += st["n"]
+            if isinstance(st["max_err"], str):
+                try:
+                    st["max_err"] = float(st["max_err"])
+                except ValueError:
+                    st["max_err"] = None
             if st["max_err"] is not None and (cur["max_err"] is None or st["max_err"] > cur["max_err"]):
                 cur["max_err"] = st["max_err"]
     # process-level events
